@@ -4,6 +4,7 @@ import math
 import random
 import types
 
+from vf import engine_p
 from vf import execharness as H
 from vf.report import MachineryDefect, Run
 
@@ -171,6 +172,7 @@ def check(tier, seed):
     run.cov["bounded_functions"].append({"functions": ["process_graphql_query", "GraphQLResult.response", "GraphQLSyntaxError.to_dict", "GraphQLLocatedError.to_dict",
                                                        "ResolverError.to_dict", "ExecutionError.to_dict", "coerce_float"], "bound": "%d requests" % n})
     run.sample({"request": texts[0][:37], "stage": "syntax", "contract": "strict JSON; errors[*].locations = [{line, column}] 1-based inside the text; no data entry"})
-    run.assume("no deductive obligation yet for response assembly; contracts evaluated at run time on the enumerated requests")
-    return run.finish("other", "bounded stand-in: response-format contracts on every enumerated request outcome (all failure stages, every truncation point)",
+    run.assume("response assembly (GraphQLResult.response, to_dict of the error classes) has no deductive obligation: evaluated at run time on the enumerated requests")
+    engine_p.run(run, 'C10')
+    return run.finish("other", "trace contracts over every syntactic path of the real function (Engine P, unbounded in the inputs, values abstracted) + bounded stand-in: response-format contracts on every enumerated request outcome (all failure stages, every truncation point)",
                       checker_cmd="./check C10 --tier %s" % tier)
